@@ -174,12 +174,12 @@ class FaultLog:  # 0418  # TODO: use a NamedTuple
         elif next_idx == idx:
             diff = 1  # next - idx + 1
         else:
-            diff = idx + 1  # 1 if self._map.get(idx) else 0
+            diff = idx + 1 - next_idx  # the first older entry must end up just below idx
 
         new_map |= {
             k + diff: v  # type: ignore[misc]
             for k, v in self._map.items()
-            if (k >= idx or v < dtm) and k + diff <= self._MAX_LOG_IDX
+            if v < dtm and k + diff <= self._MAX_LOG_IDX  # only older entries move down
         }
 
         return new_map
